@@ -45,7 +45,8 @@ def gen_hunk(rng, ascii_only=False, ok=None):
     head = '@@ -%s +%s @@' % (rng_part(s1, c1), rng_part(s2, c2))
 
     if rng.chance(0.3):
-        head += ' ' + rng.choice(['def f():', 'class X', '@@', 'x'])
+        head += ' ' + rng.choice(['def f():', 'class X', '@@', 'x',
+                                  'a\rb', 'int f(void) {\r}'])
 
     # markers may only sit *inside* the hunk body (before its last line):
     # after the last body line the hunk is complete and a marker is just a
